@@ -4,7 +4,8 @@ From Coq Require Import List NArith ZArith Bool.
 Import ListNotations.
 Require Import Celma.Common.Res Celma.ArgH.Key Celma.ArgH.Table Celma.ArgH.TableProofs Celma.ArgH.Lex
                Celma.ArgH.Handler Celma.ArgH.Spell Celma.ArgH.Groups Celma.ArgH.GroupsProofs
-               Celma.ArgH.UseProofs Celma.ArgH.GenSim Celma.ArgH.GroupsSim Celma.ArgH.MergeProofs Celma.ArgH.GroupsMerge.
+               Celma.ArgH.UseProofs Celma.ArgH.GenSim Celma.ArgH.GroupsSim Celma.ArgH.MergeProofs Celma.ArgH.GroupsMerge
+               Celma.ArgH.SubGroup Celma.ArgH.GroupsGen Celma.ArgH.GroupsGenProofs.
 
 (** Each word is handled by exactly the handler that defines its key: when
     the members before [c] answer "unknown" and [c] consumes the element, the
@@ -220,6 +221,28 @@ Proof.
   - eexists. eexists. split; [vm_compute; reflexivity|]. split; [vm_compute; reflexivity|].
     split; vm_compute; reflexivity.
 Qed.
+
+(** Member handlers may own sub-group arguments (Handler::addArgument( spec,
+    subGroup, desc)).  The group loop is the same loop with another member
+    step (ArgH/GroupsGen.v, [geval]): instantiated with plain handlers it IS
+    [eval_group], and the group of members with sub-group arguments is a
+    conservative extension of it - so every theorem above holds for the
+    members of such a group that own no sub-group argument, and the tie runs
+    both through the same harness. *)
+Theorem C08_generic_loop_is_eval_group :
+  forall cs initss argv,
+    geval plain_step forget_last has_last final_checks cs
+          (map (fun p => init_state (fst p) (snd p)) (combine cs initss)) argv
+    = eval_group false false cs initss argv.
+Proof. exact geval_plain. Qed.
+Print Assumptions C08_generic_loop_is_eval_group.
+
+Theorem C08_members_with_subgroups_conservative :
+  forall cs initss argv,
+    eval_group_sg (map plain_sg cs) (map (fun i => (i, [])) initss) argv
+    = do l <- eval_group false false cs initss argv; Ok (map emb l).
+Proof. exact eval_group_sg_conservative. Qed.
+Print Assumptions C08_members_with_subgroups_conservative.
 
 (** Known finding, recorded in known_findings.json (group-abbrev-per-member):
     the full statement "group evaluation = single handler owning all
